@@ -148,6 +148,28 @@ func requestFor(key int16) protocol.Message {
 // decodeTransport runs one Transport.RoundTrip against the handler.  key -1
 // with entry transport-sasl0 targets the raw SASL token exchange.
 func decodeTransport(entry string, key, ver int16, stream []byte, budget time.Duration) (res decodeResult) {
+	return decodeTransportWith(entry, key, ver, stream, budget, nil)
+}
+
+// decodeDescribeGroups hands a consumer-protocol value (member metadata for keySubscription, member assignment for
+// keyAssignment) to Client.DescribeGroups inside an otherwise well-formed DescribeGroups v0 response: the client decodes
+// those BYTES fields with readers of its own (describegroups.go), not with protocol.Unmarshal.
+func decodeDescribeGroups(key int16, blob []byte, budget time.Duration) decodeResult {
+	member := map[string]any{"MemberID": "m1", "GroupInstanceID": nil, "ClientID": "c", "ClientHost": "/127.0.0.1", "MemberMetadata": []byte{}, "MemberAssignment": []byte{}}
+	if key == keySubscription {
+		member["MemberMetadata"] = blob
+	} else {
+		member["MemberAssignment"] = blob
+	}
+	frame := mustEncode(15, 0, map[string]any{"Groups": []any{map[string]any{"ErrorCode": int64(0), "GroupID": "g", "GroupState": "Stable", "ProtocolType": "consumer", "ProtocolData": "range",
+		"Members": []any{member}}}})
+	return decodeTransportWith("transport", 15, 0, frame, budget, func(ctx context.Context, tr *kafka.Transport) error {
+		_, err := (&kafka.Client{Addr: kafka.TCP(brokerAddr), Transport: tr}).DescribeGroups(ctx, &kafka.DescribeGroupsRequest{GroupIDs: []string{"g"}})
+		return err
+	})
+}
+
+func decodeTransportWith(entry string, key, ver int16, stream []byte, budget time.Duration, call func(ctx context.Context, tr *kafka.Transport) error) (res decodeResult) {
 	saslV0 := entry == "transport-sasl0"
 	useSasl := entry != "transport"
 	pf := properFor(key, ver, saslV0)
@@ -234,7 +256,12 @@ func decodeTransport(entry string, key, ver int16, stream []byte, budget time.Du
 	rt := budget * 3 / 4
 	ctx, cancel := context.WithTimeout(context.Background(), rt)
 	defer cancel()
-	_, err := tr.RoundTrip(ctx, kafka.TCP(brokerAddr), requestFor(key))
+	var err error
+	if call != nil {
+		err = call(ctx, tr)
+	} else {
+		_, err = tr.RoundTrip(ctx, kafka.TCP(brokerAddr), requestFor(key))
+	}
 	switch {
 	case !served.Load():
 		msg := "the target frame was never requested"
